@@ -126,6 +126,13 @@ CLAIMED.update({
    note="Set-up is generated with reference time + delay <= u64::MAX (the stated interval must exist); shifts up to 2^33 ns; period 0 is outside the quantifier."),
 })
 
+CLAIMED.update({
+ "C20": dict(engine="simnet", category="exploration", design_ref="§5 C20",
+   technique="differential property-based testing: generated task sets run concurrently on one MainDevice under a generated schedule (which runnable task is polled at every await point) and generated per-frame latencies (responses overtake each other), and each task alone on an identically set up simulated segment; oracle = operation-by-operation equality of results, plus equality of the output memory / scratch registers the task leaves in its devices",
+   text="2..8 devices in 2..3 groups brought to OP; 2..4 tasks on disjoint resources (process data cycles of one group with evolving outputs; register writes / reads, expedited and segmented SDO reads, SDO writes and EEPROM reads on one device); frame storage ample, just enough (sum of the frames each task can hold at once) or - as a negative control - half of that, where allocation failures are accepted and nothing else.",
+   note="Interleaving is at await-point granularity on one thread (the finer-grained schedules of the PDU loop are explored by C01/C02/C06)."),
+})
+
 NOT_YET = {}
 
 ALL = [f"C{i:02d}" for i in range(1,21)]
@@ -161,7 +168,7 @@ def main():
         {"name":"pdusim","path":"harness/vlib","serves_properties":[p for p in CLAIMED if CLAIMED[p]["engine"]=="pdusim"],"kind_free_text":"PDU-loop harness: real frame builder / TX / RX driven op by op under a virtual clock, reference frame encoder, slot snapshots through verif-hooks"},
         {"name":"sii","path":"harness/vlib/src/sii.rs","serves_properties":["C12","C13","C14"],"kind_free_text":"independent SII EEPROM encoder + in-memory EepromDataProvider (4/8 byte chunks, read budget), driven through the verif-hooks SiiQueries facade"},
         {"name":"wiregen","path":"harness/vlib/src/wiregen.rs","serves_properties":["C19"],"kind_free_text":"derive-program generator, Rust source emitter, request/response executor, bit-level reference packer"},
-        {"name":"simnet","path":"harness/vlib/src/simnet.rs","serves_properties":["C07","C08","C09","C10","C11","C15","C16","C17","C18"],"kind_free_text":"simulated EtherCAT segment: frame walk over ESC register/SII/SM/FMMU/AL/mailbox(CoE)/DC models, deterministic executor under the virtual clock, coherent device generator"},
+        {"name":"simnet","path":"harness/vlib/src/simnet.rs","serves_properties":["C07","C08","C09","C10","C11","C15","C16","C17","C18","C20"],"kind_free_text":"simulated EtherCAT segment: frame walk over ESC register/SII/SM/FMMU/AL/mailbox(CoE)/DC models, deterministic executor under the virtual clock, coherent device generator"},
         {"name":"a2","path":"harness/vlib/src/a2.rs","serves_properties":["C01","C02","C06"],"kind_free_text":"yield-level scheduler: parties as ucontext coroutines on one thread, baton handed over at every verif-hooks point, schedules generated (random/PCT) or enumerated (pre-emption bounded), ownership monitor"},
       ],
       "checks":checks,
